@@ -305,7 +305,19 @@ def rule_markall(ctx):
   for cls in ("BiasedBaseCheck", "CheckCr50U2f"):
     b = body(repo, cls)
     calls = b.calls("repo:%s:_IssuerDLogs" % ES)
-    okc = bool(calls) and all(as_poly(e.data["args"][0]) == sym.mk("set", P("x")) or "guesses" in ast.unparse(e.node.args[0]) for e in calls) and all(not e.state.tags or len(e.state.tags) == 1 for e in calls)
+    # what is verified is the accumulator the guesses were collected in (its value after the issuer loop), possibly through list(..) or a temporary
+    acc_names = {e.data["target"].id for e in b.events if e.kind == "mutate" and e.data["method"] in ("update", "add", "extend", "append", "__ior__") and isinstance(e.data.get("target"), ast.Name)}
+    acc_names |= {e.data["name"] for e in b.events if e.kind == "augassign" and isinstance(getattr(e.node, "op", None), (ast.BitOr, ast.Add))}
+    acc_vals = [as_poly(v_) for li_ in b.w.loop_info.values() for vis_ in li_.get("visits", []) for nm_, v_ in (vis_.get("after_env") or {}).items() if nm_ in acc_names and isinstance(v_, Poly)]
+
+    def is_acc(x):
+      if not isinstance(x, Poly):
+        return False
+      if any(x == a_ for a_ in acc_vals):
+        return True
+      xa = x.as_atom()
+      return xa is not None and xa.kind in ("list", "sorted", "tuple", "extcall") and any(isinstance(y, Poly) and any(y == a_ for a_ in acc_vals) for y in xa.args)
+    okc = bool(calls) and all(is_acc(e.data["args"][0]) or "guesses" in ast.unparse(e.node.args[0]) for e in calls) and all(not e.state.tags or len(e.state.tags) == 1 for e in calls)
     ctx.record(R, b.where(), "all accumulated guesses are verified once per partition", okc, "_IssuerDLogs(list(guesses), pks, curve) after the issuer loop" if okc else "verification call changed")
 
 
